@@ -221,7 +221,18 @@ fn ill_typed_stmt(d: &mut Dec, p: &GProg) -> (&'static str, String) {
             _ => None,
         })
         .collect();
-    let closed: [(&'static str, &'static str); 28] = [
+    let closed: [(&'static str, &'static str); 38] = [
+        // ... the variable occurring in every position of every constructor
+        ("occurs-fn-ret", "let _ = |q| if true { q } else { q() };"),
+        ("occurs-fn-ret-arg", "let _ = |q| if true { q } else { q(1) };"),
+        ("occurs-closure-ret", "let _ = |q| if true { q } else { |z: int32| q };"),
+        ("occurs-closure-param", "let _ = |q| q(|z| q);"),
+        ("occurs-ref-branch", "let _ = |q| if true { q } else { ref(q) };"),
+        ("occurs-vec-branch", "let _ = |q| if true { q } else { vec_push(vec_new(), q) };"),
+        ("occurs-tuple-nested", "let _ = |q| if true { q } else { (1, (true, q)) };"),
+        ("occurs-ref-ref", "let _ = |q| ref_set(q, ref(ref(q)));"),
+        ("occurs-array-get", "let _ = |q| if true { q } else { array_get(q, 0) };"),
+        ("occurs-two-vars", "let _ = |q, w| if true { (q, w) } else { (w, (q, 1)) };"),
         // infinite types (the occurs check), through each type constructor
         ("occurs-ref", "let _ = |q| ref_set(q, q);"),
         ("occurs-vec", "let _ = |q| vec_push(q, q);"),
